@@ -52,7 +52,11 @@ def handle (j : Json) : R Json := do
     let n := kinds.length
     if sched.any (fun t => t ≥ n) then throw "bad_thread"
     let stale := match j.getObjValAs? Bool "stale" with | .ok b => b | .error _ => false
-    let s0 : St := { init (fun t => kinds.getD t .get) pre with tmp := if stale then .torn else .absent }
+    -- `corrupt`: an unreadable entry is lying at the final path (left by an older release that wrote in place and crashed) — outside
+    -- `Init`, i.e. outside the theorems; inside the executable model and the correspondence
+    let corrupt := match j.getObjValAs? Bool "corrupt" with | .ok b => b | .error _ => false
+    let i0 := init (fun t => kinds.getD t .get) pre
+    let s0 : St := { i0 with tmp := if stale then .torn else .absent, file := if corrupt then .torn else i0.file }
     let (s, steps, stuck) := replay m n s0 sched 0 []
     let ts := List.range n
     pure (Json.mkObj [
